@@ -211,6 +211,79 @@ func init() {
 		m[n] = ev(n)
 	}
 
+	// container/list: a trusted stub over ghost state (A9). A list has a member set of element
+	// references and a length; every element carries an arrival stamp (PushFront stamps with a
+	// value larger than every earlier one), so Front() is the member with the greatest stamp and
+	// Back() the one with the least.
+	m["container/list.New"] = func(x *Exec, s *State, fn *ssa.Function, args []Val) Val {
+		x.note("stub: container/list modelled by ghost members/stamps (A9)")
+		l := x.allocRef(s, "list")
+		x.heapStore(s, "ghost:list.mem", "(Array Int Bool)", l, "((as const (Array Int Bool)) false)")
+		x.heapStore(s, "ghost:list.len", "Int", l, "0")
+		x.heapStore(s, "ghost:list.next", "Int", l, "1")
+		return Val{Typ: fn.Signature.Results().At(0).Type(), L: []string{l}}
+	}
+	m["(*container/list.List).PushFront"] = func(x *Exec, s *State, fn *ssa.Function, args []Val) Val {
+		l := args[0].L[0]
+		e := x.allocRef(s, "listelem")
+		next := x.heapLoad(s, "ghost:list.next", "Int", l)
+		mem := x.heapLoad(s, "ghost:list.mem", "(Array Int Bool)", l)
+		ln := x.heapLoad(s, "ghost:list.len", "Int", l)
+		// stamps of current members are below next (list invariant, assumed of the library)
+		s.assume("(forall ((ee Int)) (=> (select " + mem + " ee) (< (select " + x.heapCur(s, "ghost:list.stamp", "Int") + " ee) " + next + ")))")
+		s.assume("(not (select " + mem + " " + e + "))")
+		s.assume("(>= " + ln + " 0)")
+		x.heapStore(s, "ghost:list.stamp", "Int", e, next)
+		x.heapStore(s, "ghost:list.owner", "Int", e, l)
+		x.heapStore(s, "ghost:list.next", "Int", l, "(+ "+next+" 1)")
+		x.heapStore(s, "ghost:list.mem", "(Array Int Bool)", l, "(store "+mem+" "+e+" true)")
+		x.heapStore(s, "ghost:list.len", "Int", l, "(+ "+ln+" 1)")
+		// Element.Value
+		et := fn.Signature.Results().At(0).Type().(*types.Pointer).Elem()
+		x.heapStore(s, typeKey(et)+".Value#t", "Int", e, args[1].L[0])
+		x.heapStore(s, typeKey(et)+".Value#v", "Int", e, args[1].L[1])
+		v := Val{Typ: fn.Signature.Results().At(0).Type(), L: []string{e}}
+		s.addEvent(Event{Name: "(*container/list.List).PushFront", Recv: &args[0], Args: args[1:], Res: []Val{v}})
+		return v
+	}
+	m["(*container/list.List).Remove"] = func(x *Exec, s *State, fn *ssa.Function, args []Val) Val {
+		l, e := args[0].L[0], args[1].L[0]
+		mem := x.heapLoad(s, "ghost:list.mem", "(Array Int Bool)", l)
+		ln := x.heapLoad(s, "ghost:list.len", "Int", l)
+		isMem := "(select " + mem + " " + e + ")"
+		x.heapStore(s, "ghost:list.mem", "(Array Int Bool)", l, "(store "+mem+" "+e+" false)")
+		x.heapStore(s, "ghost:list.len", "Int", l, sIte(isMem, "(- "+ln+" 1)", ln))
+		s.addEvent(Event{Name: "(*container/list.List).Remove", Recv: &args[0], Args: args[1:]})
+		return x.freshVal(s, fn.Signature.Results().At(0).Type(), "removed")
+	}
+	frontBack := func(front bool) modelFn {
+		return func(x *Exec, s *State, fn *ssa.Function, args []Val) Val {
+			l := args[0].L[0]
+			mem := x.heapLoad(s, "ghost:list.mem", "(Array Int Bool)", l)
+			ln := x.heapLoad(s, "ghost:list.len", "Int", l)
+			st := x.heapCur(s, "ghost:list.stamp", "Int")
+			r := x.D.fresh("listend", "Int")
+			s.assume("(>= " + ln + " 0)")
+			s.assume("(= (= " + r + " 0) (= " + ln + " 0))")
+			s.assume("(= (= " + ln + " 0) (forall ((ee Int)) (not (select " + mem + " ee))))")
+			cmp := "<="
+			if !front {
+				cmp = ">="
+			}
+			s.assume(sImp("(not (= "+r+" 0))", sAnd("(select "+mem+" "+r+")",
+				"(forall ((ee Int)) (=> (select "+mem+" ee) ("+cmp+" (select "+st+" ee) (select "+st+" "+r+"))))")))
+			s.assume("(not (select " + mem + " 0))")
+			return Val{Typ: fn.Signature.Results().At(0).Type(), L: []string{r}}
+		}
+	}
+	m["(*container/list.List).Front"] = frontBack(true)
+	m["(*container/list.List).Back"] = frontBack(false)
+	m["(*container/list.List).Len"] = func(x *Exec, s *State, fn *ssa.Function, args []Val) Val {
+		ln := x.heapLoad(s, "ghost:list.len", "Int", args[0].L[0])
+		s.assume("(>= " + ln + " 0)")
+		return intVal(ln)
+	}
+
 	// fmt / errors / strings
 	m["fmt.Sprintf"] = func(x *Exec, s *State, fn *ssa.Function, args []Val) Val {
 		return x.freshVal(s, types.Typ[types.String], "sprintf")
